@@ -23,8 +23,9 @@ Ops == {"U", "C", "N", "M"}             \* unary, commutative binary, non-commut
 Arity(op) == IF op \in {"C", "N"} THEN 2 ELSE 1
 NOuts(op) == IF op = "M" THEN 2 ELSE 1
 NONEV == 0                              \* an omitted (None) input
-\* host values: 1,2 graph inputs; 3 constant 1.0; 4 constant 2.0; 5 constant 1.0+1e-9; 10k+j = output j-1 of node k
-IsConstV(v) == v \in {3, 4, 5}
+\* host values: 1,2 graph inputs; 3 constant 1.0; 4 constant 2.0; 5 constant 1.0+1e-9; 6 constant [1.0] (shape [1]: a scalar
+\* pattern constant matches rank-0 constants only); 10k+j = output j-1 of node k
+IsConstV(v) == v \in {3, 4, 5, 6}
 ConstClose(v, c) == (c = 1 /\ v \in {3, 5}) \/ (c = 2 /\ v = 4)     \* math.isclose with the default tolerances
 Producer(v) == IF v >= 10 THEN v \div 10 ELSE 0
 OutIndex(v) == (v % 10) - 1
@@ -233,7 +234,7 @@ Mutate ==
      \/ \E k \in 1..Len(graph), op \in Ops :                      \* another operator of the same arity
           /\ op # graph[k].op /\ Arity(op) = Arity(graph[k].op) /\ NOuts(op) >= NOuts(graph[k].op)
           /\ graph' = [graph EXCEPT ![k].op = op] /\ mut' = "op" /\ UNCHANGED <<gouts, root>>
-     \/ \E k \in 1..Len(graph), i \in 1..2, v \in {1, 2, 3, 4, 5} \cup {OutV(m, 0) : m \in 1..Len(graph)} :
+     \/ \E k \in 1..Len(graph), i \in 1..2, v \in {1, 2, 3, 4, 5, 6} \cup {OutV(m, 0) : m \in 1..Len(graph)} :
           /\ i <= Len(graph[k].ins) /\ v # graph[k].ins[i] /\ Producer(v) < k
           /\ graph' = [graph EXCEPT ![k] = ReplaceIn(@, i, v)] /\ mut' = "rewire" /\ UNCHANGED <<gouts, root>>
      \/ \E k \in 1..Len(graph), a \in {0, 1, 2} :
